@@ -436,7 +436,8 @@ def to_coq(case, obs):
     fn = case["fn"]
     C = ccirc(obs["mid"] if "mid" in obs else case["circuit"])
     if fn == "insert_registers_args":
-        return f"CRegsG {C} {cnat(case['stages'])} {csl(obs.get('order', []))} {cargs(case['args'], obs)} {cres(obs)}"
+        kind = "CRegsW" if case.get("outside") else "CRegsG"
+        return f"{kind} {C} {cnat(case['stages'])} {csl(obs.get('order', []))} {cargs(case['args'], obs)} {cres(obs)}"
     if fn == "limit_fanin":
         return f"CFanin {C} {cnat(int(case['k']))} {csteps(obs.get('steps', []))} {cres(obs)}"
     if fn == "limit_fanout":
@@ -472,6 +473,8 @@ def classify(case, obs):
         if "out" in obs:
             out.append(f"{fn}:flops={min(len(obs['out']['bbs']), 6)}")
         out += [f"{fn}:{t}" for t in case.get("tags", [])]
+        if case.get("outside"):
+            out.append(f"{fn}:outside-guards")
     return out
 
 
